@@ -3,14 +3,14 @@
 //! serialisers, handshake over arbitrary I/O halves, fair queue, `try_send`) without changing them.
 
 use crate::codec::{
-    FrameableRead, FrameableWrite, FramedIo, Message, TrySend, ZmqCodec, ZmqCommand, ZmqFramedWrite,
-    ZmqGreeting,
+    FrameableRead, FrameableWrite, FramedIo, Message, TrySend, ZmqCodec, ZmqCommand, ZmqFramedRead,
+    ZmqFramedWrite, ZmqGreeting,
 };
 use crate::fair_queue::FairQueue;
 use crate::util::PeerIdentity;
 use crate::{MultiPeerBackend, SocketType, ZmqError, ZmqMessage, ZmqResult};
 
-use asynchronous_codec::{Decoder, Encoder, FramedWrite};
+use asynchronous_codec::{Decoder, Encoder, FramedRead, FramedWrite};
 use bytes::{Bytes, BytesMut};
 use futures::Stream;
 
@@ -140,6 +140,33 @@ pub async fn attach(
     w: Box<dyn FrameableWrite>,
 ) -> ZmqResult<PeerIdentity> {
     crate::util::peer_connected(FramedIo::new(r, w), backend).await
+}
+
+/// The crate's framed reader (real `ZmqCodec` behind the real `FramedRead`) over a harness reader.
+pub struct ReadProbe(ZmqFramedRead);
+
+impl ReadProbe {
+    pub fn new(r: Box<dyn FrameableRead>) -> Self {
+        ReadProbe(FramedRead::new(r, ZmqCodec::new()))
+    }
+
+    pub fn poll_next(&mut self, cx: &mut Context<'_>) -> Poll<Option<Result<Item, String>>> {
+        match Pin::new(&mut self.0).poll_next(cx) {
+            Poll::Pending => Poll::Pending,
+            Poll::Ready(None) => Poll::Ready(None),
+            Poll::Ready(Some(Ok(m))) => Poll::Ready(Some(Ok(item_of(m)))),
+            Poll::Ready(Some(Err(e))) => Poll::Ready(Some(Err(match &e {
+                crate::codec::CodecError::Io(io) => format!("Io.{:?}", io.kind()),
+                other => codec_err_name(&format!("{:?}", other)),
+            }))),
+        }
+    }
+
+    /// Bytes read from the transport and not yet consumed by the decoder, and that buffer's capacity.
+    pub fn buffered(&self) -> (usize, usize) {
+        let b = self.0.read_buffer();
+        (b.len(), b.capacity())
+    }
 }
 
 /// The crate's fair queue over harness-supplied streams.
